@@ -233,6 +233,8 @@ def report(ctx, res, events_file, hist_file, invs, extra_sig=None, confirm=True)
     for (tr, inv), b in sorted(firsts.items(), key=lambda kv: (len(hs[kv[0][0]]["steps"]), kv[1]["step"])):
         e = [x for x in byid[tr] if x.get("step") == b["step"] and x["ev"] == "State"][0]
         d = e["diff"] if inv != "Deterministic" else e["fdiff"]
+        if inv == "DiskIsModel":
+            d = e.get("slots", [])
         sig = "%s:%s:%s" % (inv, diff_class(d), op_kinds(e["ops"]))
         if extra_sig:
             sig = extra_sig(sig, e, hs[tr])
